@@ -69,3 +69,7 @@ Inductive plan := PEmpty | PPart | PFull.
 
 (* how the stochastic rankers form their sort keys from uniform draws U and weights w *)
 Inductive key_rule := KLogUOverW.
+
+(* where the configured scale factor enters the weights, and the transforms offered *)
+Inductive scale_rule := ScaleBeforeTransform.
+Inductive transform_rule := TrLinearMinMax | TrSoftmax | TrRawClamp.
